@@ -1,6 +1,7 @@
 use crate::common::Ctx;
 use serde_json::Value;
 
+pub mod c14;
 pub mod c15;
 pub mod c16;
 pub mod c17;
@@ -13,6 +14,7 @@ type ReplayFn = fn(&Ctx, &Value) -> Result<(bool, String), String>;
 
 fn table(prop: &str) -> Option<(RunFn, ReplayFn)> {
     Some(match prop {
+        "C14" => (c14::run, c14::replay),
         "C15" => (c15::run, c15::replay),
         "C16" => (c16::run, c16::replay),
         "C17" => (c17::run, c17::replay),
